@@ -722,7 +722,7 @@ fn check_built(cfg: &Config, s: &mut Session, rng: &mut Rng, sc: &Scenario) {
         let k = rng.below(sc.sets.len() as u64) as usize;
         let coords_list = delta_oracle(s, rng, sc, &built, &ivs, k, &desc);
         if prefix.len() < 6000 {
-            let (outer, inner) = built.remap[&built.ids[k]];
+            let Some(&(outer, inner)) = built.remap.get(&built.ids[k]) else { continue };
             for coords in coords_list.iter().take(6) {
                 let real = real_compute_delta(&built.bytes, outer, inner, coords);
                 s.case("compute_delta(built)", format!("ivs.delta {prefix} {outer} {inner} {}", lreq(coords)), real);
